@@ -20,6 +20,7 @@ fn main() {
         "c09_roundtrip" => profirust::fdl::__verif_native_telegram::c09_roundtrip(&rest, seed),
         "c02_las" => profirust::fdl::__verif_native_token_ring::c02_las(&rest, seed),
         "c03_wd" => profirust::fdl::__verif_native_parameters::c03_wd(&rest, seed),
+        "c07_recover" => profirust::dp::__verif_native_peripheral::c07_recover(&rest, seed),
         "c17_iter" => profirust::dp::__verif_native_diagnostics::c17_iter(&rest, seed),
         "c16_chunks" => phy_oracles::c16_chunks(&rest, seed),
         "c20_write" => gsd_oracles::c20_write(&rest, seed),
